@@ -308,6 +308,29 @@ func c07Case(w *core.Worker, i int) {
 			}
 		}
 	}
+	// Q4: WITH TIES at every cut position 1..10 (the tie test is a separate piece of code from the sort order)
+	for lim := 1; lim <= 10 && lim < n; lim++ {
+		q := fmt.Sprintf("SELECT id FROM t ORDER BY %s LIMIT %d WITH TIES", orderBy, lim)
+		v := run(q)
+		if v == nil {
+			continue
+		}
+		wantEnd := lim
+		for wantEnd < n && rowCmp(keys, rowByID(ref[wantEnd]), rowByID(ref[lim-1])) == 0 {
+			wantEnd++
+		}
+		got := idsOf(v)
+		if len(got) != wantEnd {
+			viol("cut:ties-at-every-position", q, fmt.Sprintf("returned %d rows; %d rows precede or tie with the row at position %d", len(got), wantEnd, lim), got, ref[:wantEnd])
+			break
+		}
+		for j := range got {
+			if got[j] < 1 || got[j] > n || rowCmp(keys, rowByID(got[j]), rowByID(ref[j])) != 0 {
+				viol("cut:ties-at-every-position", q, fmt.Sprintf("position %d holds a row whose sort keys differ from those of the specified slice", j), got, ref[:wantEnd])
+				break
+			}
+		}
+	}
 	// cuts
 	type cut struct {
 		lim     string // "" none
